@@ -179,6 +179,14 @@ def _ends_in_return(stmts: List[ast.stmt]) -> bool:
     return False
 
 
+def _is_literal(v: ast.AST) -> bool:
+    if isinstance(v, ast.Constant) and isinstance(v.value, (str, int, float, complex)) and not isinstance(v.value, bool):
+        return True
+    if isinstance(v, (ast.Tuple, ast.List)) and v.elts and all(isinstance(e, ast.Constant) and isinstance(e.value, (int, float)) and not isinstance(e.value, bool) for e in v.elts):
+        return True
+    return False
+
+
 def _computes_only(helper: ast.FunctionDef) -> bool:
     """the helper only computes and returns a value: local assignments, tests, asserts, returns"""
     for x in ast.walk(helper):
@@ -350,7 +358,22 @@ class Inliner:
             return None
         subst, pre, rename = b
         if pre:
-            return None
+            # an argument that is a larger expression can still be substituted when the helper's expression reads its
+            # parameter exactly once (nothing is duplicated, nothing is dropped)
+            uses: Dict[str, int] = {}
+            for x in ast.walk(body[0].value):
+                if isinstance(x, ast.Name) and isinstance(x.ctx, ast.Load):
+                    uses[x.id] = uses.get(x.id, 0) + 1
+            inv = {v: k for k, v in rename.items()}
+            for a in pre:
+                pname = inv.get(a.targets[0].id)
+                if pname is None or uses.get(pname, 0) != 1 or any(isinstance(y, (ast.Lambda, ast.NamedExpr)) for y in ast.walk(a.value)):
+                    return None
+            subst = dict(subst)
+            for a in pre:
+                pname = inv[a.targets[0].id]
+                subst[pname] = a.value
+                rename = {k: v for k, v in rename.items() if k != pname}
         return _Subst(subst, rename).visit(copy.deepcopy(body[0].value))
 
     def rewrite_block(self, stmts: List[ast.stmt], fi, depth: int) -> List[ast.stmt]:
@@ -372,6 +395,8 @@ class Inliner:
                 elif isinstance(s, (ast.Assign, ast.AnnAssign)) and isinstance(getattr(s, "value", None), ast.Call):
                     h = self.resolve(s.value, fi)
                     tgt = s.targets[0] if isinstance(s, ast.Assign) and len(s.targets) == 1 else (s.target if isinstance(s, ast.AnnAssign) else None)
+                    if h is not None and self.expr_inline(h, s.value) is not None:
+                        h = None           # a one-expression helper: substituted in place by _rewrite_exprs below (no temporaries)
                     if h is not None and tgt is not None:
                         repl = self.splice(h, s.value, "assign", tgt)
                         call = s.value
@@ -482,7 +507,46 @@ class Inliner:
         self.repo.absorbed = self._absorbed(fis)
         for fi in fis:
             if not fi.module.relpath.startswith("examples/"):
+                self._module_constants(fi)
                 self._level_aliases(fi)
+
+    def _module_constants(self, fi) -> None:
+        """a literal that was given a module-level name (`_EINSUM_OP_FIRST = "ea,abcd,fb->efcd"`, `_PAIR_AXES = (0, 2, 1, 3)`) is read as
+        that literal: names bound exactly once at module level to a string / number / tuple or list of numbers, never rebound in the function"""
+        consts = getattr(fi.module, "_pwsa_consts", None)
+        if consts is None:
+            counts: Dict[str, int] = {}
+            vals: Dict[str, ast.AST] = {}
+            for st in ast.walk(fi.module.tree):
+                if isinstance(st, ast.Name) and isinstance(st.ctx, (ast.Store, ast.Del)):
+                    counts[st.id] = counts.get(st.id, 0) + 1
+            for st in fi.module.tree.body:
+                tgt = st.targets[0] if isinstance(st, ast.Assign) and len(st.targets) == 1 else (st.target if isinstance(st, ast.AnnAssign) else None)
+                v = getattr(st, "value", None)
+                if isinstance(tgt, ast.Name) and v is not None and _is_literal(v):
+                    vals[tgt.id] = v
+            consts = {k: v for k, v in vals.items() if counts.get(k) == 1}
+            try:
+                fi.module._pwsa_consts = consts
+            except Exception:
+                pass
+        if not consts:
+            return
+        fn = fi.node
+        used = {x.id for x in ast.walk(fn) if isinstance(x, ast.Name) and isinstance(x.ctx, ast.Load) and x.id in consts}
+        if not used:
+            return
+        params = {a.arg for a in fn.args.posonlyargs + fn.args.args + fn.args.kwonlyargs}
+        new = copy.deepcopy(fn) if fn is getattr(fi, "orig", None) else fn
+
+        class _C(ast.NodeTransformer):
+            def visit_Name(self, n):
+                if isinstance(n.ctx, ast.Load) and n.id in consts and n.id not in params:
+                    return ast.copy_location(copy.deepcopy(consts[n.id]), n)
+                return n
+        _C().visit(new)
+        ast.fix_missing_locations(new)
+        fi.node = new
 
     LEVEL_KILLERS = {"expand", "contract", "_set_measured", "measure", "measure_POVM", "apply_kraus", "apply_operation", "combine", "extract"}
 
